@@ -383,6 +383,16 @@ fn saturating_u32<T: TryInto<u32>>(v: T) -> u32 {
     v.try_into().unwrap_or(u32::MAX)
 }
 
+/* RFC4861 Section 4.6.2: The bits in the prefix after the prefix length are reserved and MUST be
+ * initialized to zero by the sender.
+ */
+fn mask_prefix(prefix: &std::net::Ipv6Addr, prefixlen: u8) -> std::net::Ipv6Addr {
+    let mask = u128::MAX
+        .checked_shl(128_u32.saturating_sub(prefixlen.into()))
+        .unwrap_or(0);
+    (u128::from(*prefix) & mask).into()
+}
+
 fn serialise_router_advertisement(a: &RtrAdvertisement) -> Vec<u8> {
     let mut v: Serialise = Default::default();
     v.serialise(ND_ROUTER_ADVERT.0);
@@ -421,7 +431,7 @@ fn serialise_router_advertisement(a: &RtrAdvertisement) -> Vec<u8> {
                 v.serialise(saturating_u32(prefix.valid.as_secs()));
                 v.serialise(saturating_u32(prefix.preferred.as_secs()));
                 v.serialise(0_u32);
-                v.serialise(&prefix.prefix);
+                v.serialise(&mask_prefix(&prefix.prefix, prefix.prefixlen));
             }
             NDOptionValue::RecursiveDnsServers((lifetime, servers)) => {
                 use std::convert::TryFrom as _;
